@@ -20,8 +20,10 @@ def gen_rank(rnd: random.Random, rank: int, p: Dict[str, Any]) -> Dict[str, Any]
              "MEMORY": rnd.sample(MEM, rnd.randint(1, len(MEM))), "OTHER": rnd.sample(OTHER, rnd.randint(1, len(OTHER)))}
     if p["many_names"]:
         pools["COMPUTATION"] = pools["COMPUTATION"] + [f"kernel_variant_{i}" for i in range(rnd.randint(3, 12))]
+        if rnd.random() < 0.3:
+            pools["COMPUTATION"].append("others")        # a kernel may literally be called like the aggregate row
     weights = p["type_weights"]
-    streams = rnd.sample([7, 20, 24, 28], p["n_streams"])
+    streams = rnd.sample([0, 7, 20, 24, 28], p["n_streams"])      # 0 = legacy default stream (ROCm / Triton traces use it)
     ev: List[Dict[str, Any]] = [{"ph": "X", "cat": "cpu_op", "name": "aten::mm", "pid": 4000 + rank, "tid": 4000 + rank,
                                  "ts": base + rnd.randint(0, 3), "dur": T + 5, "args": {"External id": 1}}]
     spans = []
@@ -85,6 +87,6 @@ def gen_case(rnd: random.Random, tier: str, need_comm: bool = False, annotations
              "n_streams": rnd.choice([1, 2, 3, 4]), "p_zero": rnd.choice([0.0, 0.15, 0.3]), "type_weights": w,
              "many_names": rnd.random() < 0.5, "shuffle": rnd.random() < 0.5, "force_comm": need_comm,
              "n_ann": rnd.choice([0, 0, 3, 12]) if annotations else 0,
-             "ann_names": rnd.sample(["fwd", "bwd", "opt", "nccl:all_reduce", "fwd_block_1", "fwd_block_2", "loss", "data"], rnd.randint(1, 8))}
+             "ann_names": rnd.sample(["fwd", "bwd", "opt", "nccl:all_reduce", "fwd_block_1", "fwd_block_2", "loss", "data", "others"], rnd.randint(1, 9))}
         files[f"rank{r}.json"] = gen_rank(rnd, r, p)
     return {"files": files}
